@@ -828,7 +828,7 @@ def run_unit(ctx: C.Ctx):
         "distribution": distribution, "outside_guard_samples": outside[:3],
         "theorems": "C01_no_silent_drop, C01_break_guard, C01_continue_guard, C01_continue_translation (all programs); C01_stmt_preserve_partial (simulation inside StmtGuard.guard_ok, modulo the shared expression semantics + SemFacts.sem_facts); C01_stmt_{range_bound,retype}_refuted (witnesses = listed findings); repaired and positive: C01_nothing_is_reinitialised (EVERY accepted program: no node of setup() / loop() at any depth declares or assigns a default value - the universally quantified statement both repaired findings contradicted), C01_hoisted_declaration_dropped, C01_first_assignment_becomes_assignment, C01_main_loop_first_assignment_is_global (all inputs), C01_stmt_promotion_no_reinit, C01_stmt_loop_variable_persists (the witnesses of F-C01-hoisted-decl-reinit / F-C01-loop-local-reinit: both traces equal); helper functions (Lang/FnRet.v): C01_return_type_covers, C01_bool_helper_only_truth_values, C01_number_or_truth_helper_is_int (all label lists), C01_helper_call_value_preserved (every body with any number of return statements: same state, events and number on both sides), C01_helper_call_serial_preserved_partial (guard FnRet.uniform_kind), C01_helper_mixed_return_refuted (finding F-C01-helper-mixed-return); tuple assignment (Lang/TupleOrder.v): C01_tuple_rhs_evaluated_in_source_order, C01_tuple_declaration_evaluated_in_source_order (the emitted statements evaluate e0..en once each, in source order, before the first target is written)",
         "guard": "StmtGuard.guard_ok: every variable first assigned at top level of the setup part (global) or at top level of the `while True:` body before any read in the text of that body (a global as well since the repair of F-C01-loop-local-reinit: default initialiser, assigned in place, value kept between passes); later assignments keep the type label; tuple assignment either as the declaration of distinct new names at top level of the setup part, or (n >= 1) to names that are all declared already with unchanged types (swap / rotation / parallel assignment through block-local temporaries `__tmp_assign_k`, at any nesting level and in the main loop; mixed new/declared tuples and tuple declarations inside the main loop stay outside); declared names are not spelled like a temporary; range() bound int-labelled, independent of the loop variable and of names the body assigns; loop variables fresh, unassigned, read only inside their loop; consistent expression ids.  Oracle guard (dynamic): no computed int leaves 32 bits (CPython run with every expression instrumented); a script whose deviation the extracted model itself predicts (outside guard_ok) is not blamed.  `continue` is inside the guard (any placement the parser accepts: in for / while loops, under nested ifs, in the body of the main loop where it is `return;` from loop())",
-        "unmodelled": ["helper functions: the return type and the returned value are modelled (Lang/FnRet.v, tied to _merge_return_types exhaustively and to the emitted return type of every generated helper); parameters / per-signature variants, locals of a helper and the call sites inside expressions are covered by the firmware-vs-CPython oracle only (generated helpers: several return statements, effects, calls in every expression position)", "side effects of expressions: the simulation theorem's expression semantics is pure; the ORDER of effectful right-hand sides of a tuple assignment is proved at the level of the emitted node list (C01_tuple_rhs_evaluated_in_source_order) and observed on the firmware by the oracle; C++ operand / argument evaluation order inside one expression is outside every model (finding F-C01-eval-order)", "lists, try/except, device objects (firmware-vs-CPython oracle only)", "hoisting (promotion: a name first assigned inside an if/while/for block) is in Lang.Transl and in the executable correspondence (IR and both traces), but outside the simulation theorem's guard; the refuted witness retype marks where the unchanged code stops preserving behaviour; hoisted-decl-reinit and loop-local-reinit are repaired (witness theorems C01_stmt_promotion_no_reinit / C01_stmt_loop_variable_persists, rewriter theorems for all inputs) ; for every accepted program C01_nothing_is_reinitialised excludes the defect class itself (no default re-initialisation anywhere) - a universally quantified SIMULATION theorem for hoisting is not proved", "tuples mixing new and declared names, tuple first-assignments inside the main loop (globals assigned from the temporaries: in Lang.Transl.tr_tuple_main and both correspondences, outside the simulation theorem's guard)", "expression translation (unit C01_expr): the simulation is modulo a shared opaque expression semantics", "16-bit int of a real AVR"],
+        "unmodelled": ["helper functions: the return type and the returned value are modelled (Lang/FnRet.v, tied to _merge_return_types exhaustively and to the emitted return type of every generated helper); parameters / per-signature variants, locals of a helper and the call sites inside expressions are covered by the firmware-vs-CPython oracle only (generated helpers: several return statements, effects, calls in every expression position)", "side effects of expressions: the simulation theorem's expression semantics is pure; the ORDER of effectful right-hand sides of a tuple assignment is proved at the level of the emitted node list (C01_tuple_rhs_evaluated_in_source_order) and observed on the firmware by the oracle; C++ operand / argument evaluation order inside one expression is outside every model (finding F-C01-eval-order)", "lists, try/except, device objects (firmware-vs-CPython oracle only)", "hoisting (promotion: a name first assigned inside an if/while/for block) is in Lang.Transl and in the executable correspondence (IR and both traces), but outside the simulation theorem's guard; the refuted witness retype marks where the unchanged code stops preserving behaviour; hoisted-decl-reinit and loop-local-reinit are repaired (witness theorems C01_stmt_promotion_no_reinit / C01_stmt_loop_variable_persists, rewriter theorems for all inputs) ; for every accepted program C01_nothing_is_reinitialised excludes the defect class itself (no default re-initialisation anywhere) - a universally quantified SIMULATION theorem for hoisting is not proved", "tuples mixing new and declared names, tuple first-assignments inside the main loop (globals assigned from the temporaries: in Lang.Transl.tr_tuple_main and both correspondences, outside the simulation theorem's guard)", "expression translation (unit C01_expr): the simulation is modulo a shared opaque expression semantics", "16-bit int of a real AVR", "identifiers reserved in C++ (keywords, setup / loop, Arduino core names, A<n>): rejected by the parser since the repair of F-C06-cpp-keyword-identifier; Lang.Transl does not transcribe that check (its model is coq/Lang/Reserved.v of C06, tied to parser._check_identifier there) and the generated programs take their names from pools without such names"],
         "evaluations": len(progs) + len(lsrcs) + ir["ir_cases"] + ir.get("exec_cases", 0) + hu.get("merge_cases", 0) + hu["helper_programs"], "list_programs_by_status": dict(lstats), "programs_by_status": dict(stats), "ir_correspondence": ir,
         "distinct_nontrivial": len({s for s, r in zip(srcs, res) if r["status"] == "equal" and len(r["py"]) >= 3}) + hu["nontrivial"],
         "samples": [srcs[0][len(progen.HEADER):], srcs[-1][len(progen.HEADER):]],
